@@ -459,7 +459,7 @@ func TestVerifC12(t *testing.T) {
 	// overlapping requests: valid and invalid reports sent at once by several
 	// clients; every valid one must end up stored exactly, no invalid one may
 	// leave a trace, whatever the handlers share behind the scenes
-	rounds := verifrt.Scale(12, 400)
+	rounds := verifrt.Scale(60, 1500)
 	for rd := 0; rd < rounds; rd++ {
 		if !verifrt.WantCase(check, 1_000_000+rd) {
 			continue
@@ -488,6 +488,19 @@ func TestVerifC12(t *testing.T) {
 			}
 			used[fmt.Sprintf("%s/%g", rep.Week, rep.X)] = true
 			q := &creq{week: rep.Week, x: rep.X, valid: true, why: "valid"}
+			if rd%2 == 1 && len(rep.Programs) > 0 {
+				// bodies of 5-60 KB (many stacks of an approved stack counter), all of
+				// different content: encoding and writing them takes long enough to overlap
+				for _, p := range rep.Programs {
+					if p.Program != "golang.org/x/tools/gopls" {
+						continue
+					}
+					for j, n := 0, 20+rnd.Intn(180); j < n; j++ {
+						p.Stacks[fmt.Sprintf("crash/crash\ngolang.org/x/tools/gopls.main:+%d,+0x%x\nruntime.main:+%d,+0x%x\n%s", j, rnd.Intn(1<<20), k, rd, strings.Repeat("runtime.goexit:+0,+0x1\n", 6))] = int64(k + 1)
+					}
+					break // (one program only: the body stays well below the 100 KiB limit)
+				}
+			}
 			if rnd.Intn(3) == 0 {
 				q.body, q.why = invalidate(rnd, rep)
 				q.valid = false
